@@ -21,6 +21,9 @@ A case is a program of scripted handlers on one root component plus a top-level 
   body: {'t': 'p', 'a': [act...], 'r': res}   plain handler
         {'t': 'g', 's': [[[act...], res], ...]}  generator handler, one entry per next()
   act:  ['f', thr, n]  fire e<n>      ['s', thr, code]  stop(code)     (thr=1: from a second thread, joined)
+        ['c', thr, code, j]  stop(code) called on registered child component j (a manager that never ran)
+  'comps': number of child components registered on the root (0-2); a body may carry 'o': j = its handler is a
+           method of child j (default 0 = the root); ext entry ['c', code, j] = child j's stop(code) from the second thread
   res:  ['y'] yield | ['r'] return | ['x', code] raise SystemExit(code) | ['k'] KeyboardInterrupt | ['e'] error
 
 A second kind of case, {'kind': 'preempt', 'h': ..., 'code': c, 'ops': [['run'], ['len']]}, is oracle-only: the RUN
@@ -32,7 +35,8 @@ Observable = the flat log (same alphabet as Model/KLoop.tr without the ghost TFi
   [1,k] dispatch of k | [2,k,i] plain handler | [3,k,i,g] generator created | [4,g,j] generator step |
   [5,code] stop request | [6,code] SystemExit in the second thread | [7,inf] idle wait | [8] tick |
   [9,None|[[code]]] run()/stop() returned / raised SystemExit | [10,n] len(manager) |
-  [11] the stopping second thread is parked after fire(stopped) | [12] ... before fire(stopped)
+  [11] the stopping second thread is parked after fire(stopped) | [12] ... before fire(stopped) |
+  [13,code] stop(code) called on a child | [14] ... and it raised SystemExit into its caller (never in the model)
 run() executes in the checking thread; circuits.core.helpers.Event is replaced by a wait double that never
 blocks: every wait is the deterministic point at which the second thread performs the next 'ext' entry.
 """
@@ -240,14 +244,28 @@ class Driver:
                         drv.finish(r)
             return fn
 
+        ncomp = int(self.case.get('comps', 0))
+        kids = [{'channel': '*'} for _ in range(ncomp)]
         for k, bodies in self.case['h']:
             name = {0: 'started', 1: 'stopped', 3: 'exception'}.get(k, 'e%d' % (k - 10))
             for i, b in enumerate(bodies):
                 fn = mk_plain(k, i, b) if b['t'] == 'p' else mk_gen(k, i, b)
                 fn.__name__ = 'h_%d_%d' % (k, i)
-                d[fn.__name__] = handler(name, priority=10 - i)(fn)
+                o = b.get('o', 0)
+                (d if not (o and ncomp) else kids[(o - 1) % ncomp])[fn.__name__] = handler(name, priority=10 - i)(fn)
         App = type('App', (Component,), d)
         app = App()
+        self.kids = []
+        for j, dk in enumerate(kids):
+            kid = type('Child%d' % (j + 1), (Component,), dk)()
+            kid.register(app)
+            self.kids.append(kid)
+        n = 0
+        while len(app) and n < 20:       # the `registered` events: out of the way before the script starts
+            app.flush()
+            n += 1
+        del log[:]
+        drv.ndisp = 0
         orig_tick = app.tick
 
         def tick(*a, **kw):
@@ -363,9 +381,26 @@ class Driver:
         for kind, v in L['box']:
             self.log.append([6, v if kind == 'exit' and isinstance(v, int) else -778])
 
+    def do_child_stop(self, thr, code, j):
+        if self.runaway or not self.kids:
+            return
+        kid = self.kids[(j - 1) % len(self.kids)]
+        self.log.append([13, None if code is None else [code]])
+        if thr:
+            for kind, v in in_thread(lambda: kid.stop(code)):
+                self.log.append([14])
+        else:
+            try:
+                kid.stop(code)
+            except SystemExit:
+                self.log.append([14])
+                raise
+
     def do_acts(self, acts):
         for a in acts:
-            if a[0] == 'f':
+            if a[0] == 'c':
+                self.do_child_stop(a[1], a[2], a[3] if len(a) > 3 else 1)
+            elif a[0] == 'f':
                 ev = self.new_event(a[2])
                 if a[1]:
                     in_thread(lambda: self.app.fire(ev))
@@ -396,6 +431,8 @@ class Driver:
             if x[0] == 'f':
                 ev = self.new_event(x[1])
                 in_thread(lambda: self.app.fire(ev))
+            elif x[0] == 'c':
+                self.do_child_stop(1, x[1], x[2] if len(x) > 2 else 1)
             elif x[0] == 's':
                 if len(x) > 2 and x[2] == 1:
                     self.late_stop(x[1])
@@ -621,6 +658,8 @@ def c_bool(b):
 def c_act(a):
     if a[0] == 'f':
         return 'AFire %s %d%%nat' % (c_bool(a[1]), a[2])
+    if a[0] == 'c':
+        return 'AStopChild %s %s' % (c_bool(a[1]), c_code(a[2]))
     return 'AStop %s %s' % (c_bool(a[1]), c_code(a[2]))
 
 
@@ -644,6 +683,8 @@ def c_op(o):
 
 
 def c_x(x):
+    if x[0] == 'c':
+        return 'XStopChild %s' % c_code(x[1])
     return {'n': 'XNop'}.get(x[0]) or ('XFire %d%%nat' % x[1] if x[0] == 'f' else
                                        'XStop %s %s' % (['PJoin', 'PLate', 'PEarly'][x[2] if len(x) > 2 else 0],
                                                         c_code(x[1])))
@@ -827,6 +868,58 @@ class Gen:
         ops += [['flush'], ['len']]
         return {'h': sorted([k, v] for k, v in h.items() if v), 'ext': ext, 'ops': ops, 'place': 'early-stop'}
 
+    def add_children(self, c):
+        """turn a single-manager case into a component tree: handlers spread over root and children, and stop()
+        calls on the children (which never ran) sprinkled over the bodies and the second thread's script"""
+        r = self.rng
+        n = c['comps'] = r.randint(1, 2)
+        for k, bs in c['h']:
+            for b in bs:
+                if r.random() < 0.5:
+                    b['o'] = r.randint(1, n)
+                for acts in ([b['a']] if b['t'] == 'p' else [sg[0] for sg in b['s']]):
+                    if r.random() < 0.3:
+                        j = b.get('o') if b.get('o') and r.random() < 0.6 else r.randint(1, n)   # mostly self.stop()
+                        acts.insert(r.randint(0, len(acts)), ['c', int(r.random() < 0.25), r.choice(CODES), j])
+        if r.random() < 0.4:
+            c['ext'].insert(r.randint(0, len(c['ext'])), ['c', r.choice(CODES), r.randint(1, n)])
+        return c
+
+    def child_stop(self):
+        """root + 1-2 registered children; a chain started -> e0 -> e1 -> e2 whose handlers live on root and children
+        and call stop()/stop(code) on a child: from the child's own handler, from the root's handler, from a second
+        thread, before and after the root's own stop"""
+        r = self.rng
+        n = r.randint(1, 2)
+        def cs(owner=None):
+            j = owner if owner and r.random() < 0.7 else r.randint(1, n)
+            return ['c', int(r.random() < 0.25), r.choice(CODES), j]
+        h = {}
+        L = r.randint(1, 3)
+        h[0] = [{'t': 'p', 'a': [['f', 0, 0]], 'r': ['r'], 'o': r.randint(0, n)}]
+        for i in range(L):
+            o = r.randint(0, n)
+            acts = [cs(o)] if r.random() < 0.7 else []
+            if i + 1 < L:
+                acts.insert(r.randint(0, len(acts)), ['f', 0, i + 1])
+            else:
+                acts.append(['s', 0, r.choice(CODES)] if r.random() < 0.7 else ['f', 0, 4])
+                if r.random() < 0.5:
+                    acts.append(cs(o))                  # after the root's own stop
+            h[10 + i] = [{'t': r.choice(['p', 'p', 'g']), 'a': acts, 'r': ['r'], 'o': o}]
+            if h[10 + i][0]['t'] == 'g':
+                b = h[10 + i][0]
+                b['s'] = [[[], ['y']]] * r.randint(0, 1) + [[b.pop('a'), ['y']]]
+                del b['r']
+        if r.random() < 0.6:
+            h[1] = [{'t': 'p', 'a': [cs()] if r.random() < 0.6 else [], 'r': ['r'], 'o': r.randint(0, n)}]
+        ext = []
+        if r.random() < 0.5:
+            ext.append(['c', r.choice(CODES), r.randint(1, n)])
+        ext.append(['s', r.choice(CODES), r.choice([0, 0, 1])])
+        ops = [['run'], ['len']] * r.choice([1, 1, 2]) + [['flush'], ['len']]
+        return {'h': sorted([k, v] for k, v in h.items() if v), 'ext': ext, 'comps': n, 'ops': ops, 'place': 'child-stop'}
+
     def mid_script(self):
         r = self.rng
         j = r.choice([0, 0, 1, 1, 2, 3, 5])
@@ -905,7 +998,9 @@ class C08(Prop):
             '(acyclic firing), with one deliberately placed stop site (started / mid-chain / generator step / second '
             'thread inside a handler / second thread while the loop idles, joined or pre-empted right after its '
             'fire(stopped) until run() has returned, or (6 % early-stop cases, timed idle wait) right before it / SystemExit / KeyboardInterrupt / inside the '
-            'stopped handler / none; 10 % late-chain cases: a generator outliving stop() that starts event chains of '
+            'stopped handler / none; component trees (root + 1-2 registered children, handlers on both, stop(code) called '
+            'on a child from its own / the root\'s handler / a second thread: 8 % child-stop cases + 20 % of the others); '
+            '10 % late-chain cases: a generator outliving stop() that starts event chains of '
             'length 2-4 in every fade-out tick) and exit codes None,0,1,3,7,9; 1-3 run() cycles with stop() on the idle manager '
             'in between; plus the manual main loop (stop() with inline ticks). non-trivial = a run() that dispatched '
             'a user event and was stopped by the program or the second thread')
@@ -934,7 +1029,9 @@ class C08(Prop):
                 continue
             x = rng.random()
             c = (g.manual() if x < 0.08 else g.late_chain() if x < 0.18 else g.early_stop() if x < 0.24
-                 else g.mid_stop() if x < 0.31 else g.case())
+                 else g.mid_stop() if x < 0.31 else g.child_stop() if x < 0.39 else g.case())
+            if c['place'] not in ('manual', 'child-stop', 'early-stop') and rng.random() < 0.2:
+                g.add_children(c)
             if c['place'] not in ('manual', 'mid-stop') and rng.random() < 0.12:
                 c['mid'] = g.mid_script()
             out.append(c)
@@ -1010,6 +1107,8 @@ class C08(Prop):
                     bad('started dispatched %d times during one run()' % n_started)
                 if n_stopped != 1:
                     bad('stopped dispatched %d times before run() returned' % n_stopped)
+                if [14] in sl:
+                    bad('stop() on a child component that is not running raised SystemExit into its caller')
                 if m['still_running']:
                     bad('manager still running after run() returned')
                 if m['qlen'] != 0:
@@ -1085,7 +1184,8 @@ class C08(Prop):
     def search(self, rng, tier):
         g = Gen(rng)
         return [g.preempt() for _ in range(3)] + [
-            g.late_chain() if i % 5 == 0 else g.early_stop() if i % 5 == 1 else g.mid_stop() if i % 5 == 2 else g.case()
+            g.late_chain() if i % 6 == 0 else g.early_stop() if i % 6 == 1 else g.mid_stop() if i % 6 == 2
+            else g.child_stop() if i % 6 == 3 else g.case()
             for i in range(1500)]
 
 
